@@ -20,6 +20,13 @@ FEAT = "mouette/processing/features.py"
 
 
 # ---------------------------------------------------------------------- canonical form
+def check_decorators(fn, rel, expected):
+    """fail closed on any decorator that is not the expected one (memoisation, wrappers changing the call protocol...)"""
+    got = [ast.unparse(d) for d in fn.decorator_list]
+    if got != expected:
+        raise TranslationError("%s: %s is decorated with %s, recognised: %s" % (rel, fn.name, got, expected))
+
+
 def canon_fn(fn, rel, drop=None):
     names = []
 
@@ -312,6 +319,7 @@ def gen_border(parts):
     out = []
     # ---------------- extract_border_cycle
     fn = T.find_def(tree, "extract_border_cycle", BORDER)
+    check_decorators(fn, BORDER, ["allowed_mesh_types(SurfaceMesh)"])
     parts.append(("border.extract_border_cycle", T.sha(src, fn)))
     if [a.arg for a in fn.args.args] != ["mesh", "starting_point"] or len(fn.args.defaults) != 1 \
             or not (isinstance(fn.args.defaults[0], ast.Constant) and fn.args.defaults[0].value is None):
@@ -333,6 +341,9 @@ def gen_border(parts):
 
     # ---------------- extract_border_cycle_all
     fn = T.find_def(tree, "extract_border_cycle_all", BORDER)
+    check_decorators(fn, BORDER, ["allowed_mesh_types(SurfaceMesh)"])
+    if [a.arg for a in fn.args.args] != ["mesh"] or fn.args.defaults or fn.args.kwonlyargs or fn.args.vararg or fn.args.kwarg:
+        T.fail(BORDER, fn, "signature is not (mesh)")
     parts.append(("border.extract_border_cycle_all", T.sha(src, fn)))
     W = "extract_border_cycle_all"
     h = match_lines(BORDER, W, canon_fn(fn, BORDER), ALL_T)
@@ -345,6 +356,9 @@ def gen_border(parts):
 
     # ---------------- extract_boundary_of_surface
     fn = T.find_def(tree, "extract_boundary_of_surface", BORDER)
+    check_decorators(fn, BORDER, ["allowed_mesh_types(SurfaceMesh)"])
+    if [a.arg for a in fn.args.args] != ["mesh"] or fn.args.defaults or fn.args.kwonlyargs or fn.args.vararg or fn.args.kwarg:
+        T.fail(BORDER, fn, "signature is not (mesh)")
     parts.append(("border.extract_boundary_of_surface", T.sha(src, fn)))
     W = "extract_boundary_of_surface"
     lines = canon_fn(fn, BORDER)
@@ -570,9 +584,46 @@ def gen_features(parts):
     def fn_of(name, args):
         fn = T.find_def(tree, cls + "." + name, FEAT)
         parts.append(("features." + name, T.sha(src, fn)))
-        if [a.arg for a in fn.args.args] != args:
-            T.fail(FEAT, fn, "signature of %s is not %s" % (name, args))
+        if [a.arg for a in fn.args.args] != args or fn.args.defaults or fn.args.kwonlyargs or fn.args.vararg or fn.args.kwarg:
+            T.fail(FEAT, fn, "signature of %s is not %s (no defaults)" % (name, args))
+        check_decorators(fn, FEAT, ["allowed_mesh_types(SurfaceMesh)"] if name == "run" else [])
         return fn
+
+    # constructor: the options and their defaults (immutable constants only), stored under their own names
+    init = T.find_def(tree, cls + ".__init__", FEAT)
+    parts.append(("features.__init__", T.sha(src, init)))
+    check_decorators(init, FEAT, [])
+    ia = [a.arg for a in init.args.args]
+    if ia != ["self", "only_border", "flag_corners", "corner_order", "compute_feature_graph", "verbose"] \
+            or len(init.args.defaults) != 5 or init.args.kwonlyargs or init.args.vararg or init.args.kwarg:
+        T.fail(FEAT, init, "constructor is not (self, only_border=, flag_corners=, corner_order=, compute_feature_graph=, verbose=)")
+    dv = []
+    for dnode in init.args.defaults:
+        if not (isinstance(dnode, ast.Constant) and isinstance(dnode.value, (bool, int)) ):
+            T.fail(FEAT, dnode, "default of a constructor option is not an immutable bool/int constant")
+        dv.append(dnode.value)
+    stored = {}
+    for st in ast.walk(init):
+        if isinstance(st, (ast.Assign, ast.AnnAssign)):
+            tg = st.targets[0] if isinstance(st, ast.Assign) else st.target
+            d = T.dotted(tg)
+            if d in ("self.only_border", "self.flag_corners", "self.corner_order", "self.compute_feature_graph"):
+                stored[d[5:]] = ast.unparse(st.value) if st.value is not None else None
+    for k in ("only_border", "flag_corners", "corner_order", "compute_feature_graph"):
+        if stored.get(k) != k:
+            raise TranslationError("%s: __init__ does not store option %s under its own name (found %r)" % (FEAT, k, stored.get(k)))
+    if not isinstance(dv[0], bool) or not isinstance(dv[1], bool) or isinstance(dv[2], bool) or not isinstance(dv[3], bool):
+        T.fail(FEAT, init, "types of the option defaults changed: %r" % (dv,))
+    out.append("Definition det_default_only_border : bool := %s." % ("true" if dv[0] else "false"))
+    out.append("Definition det_default_flag_corners : bool := %s." % ("true" if dv[1] else "false"))
+    out.append("Definition det_default_corner_order : Z := %d." % dv[2])
+    out.append("Definition det_default_graph : bool := %s." % ("true" if dv[3] else "false"))
+    # detect(mesh) is run(mesh)
+    det = T.find_def(tree, cls + ".detect", FEAT)
+    check_decorators(det, FEAT, [])
+    if [a.arg for a in det.args.args] != ["self", "mesh"] or det.args.defaults:
+        T.fail(FEAT, det, "detect is not (self, mesh)")
+    match_lines(FEAT, "detect", canon_fn(det, FEAT), "v0.run(v1)")
 
     # clear
     match_lines(FEAT, "clear", canon_fn(fn_of("clear", ["self"]), FEAT), CLEAR_T)
